@@ -7,13 +7,18 @@ usage: seed_run.py <worktree> <variant> [--checks C01,C02] [--tier quick|thoroug
 Steps:
   1. confirm (in the scratch worktree, never in /repo): patch applies on the clean HEAD, builds,
      the demonstration fails with it and passes without it, the pinned suite still passes.
-  2. detect: git -C /repo apply, ./check <ID> for the property (and any --checks), undo.
+  2. detect: git -C <repo> apply, ./check <ID> for the property (and any --checks), undo.
 Everything kept goes to /verif/seeded/<ID>-<variant>/ (patch.diff, demo_test.go, meta.json,
 result.json with what was confirmed and which checks fired).
 """
 import json, os, shutil, subprocess, sys, time
 
 ENV = dict(os.environ, GOFLAGS="-mod=mod", GOPROXY="off")
+# detection may run against a scratch worktree of /repo and a clone of /verif (SEED_REPO / SEED_VERIF)
+# so that other work using /repo and /verif is not disturbed while a seeded change is applied
+SREPO = os.environ.get("SEED_REPO", "/repo")
+SVERIF = os.environ.get("SEED_VERIF", "/verif")
+ENV["VERIF_REPO"] = SREPO
 ENV.pop("GOSUMDB", None); ENV.pop("GOTOOLCHAIN", None)
 
 
@@ -102,7 +107,7 @@ def main():
     if not detect:
         return
     # detection on /repo
-    rc, out = sh("git -C /repo status --porcelain")
+    rc, out = sh("git -C " + SREPO + " status --porcelain")
     if out.strip():
         print("ERROR: /repo is not clean; refusing"); sys.exit(3)
     # a change delivered against an older HEAD that no longer applies is kept together with
@@ -111,7 +116,7 @@ def main():
     if os.path.exists(rebased):
         patch = rebased
         res["detect_patch"] = "patch.rebased.diff"
-    rc, out = sh("git -C /repo apply " + patch)
+    rc, out = sh("git -C " + SREPO + " apply " + patch)
     if rc != 0:
         res.setdefault("detect", {})["apply_on_repo_head"] = "FAILED: " + out[-300:]
         json.dump(res, open(resf, "w"), indent=1)
@@ -120,7 +125,7 @@ def main():
     try:
         for cid in [pid] + [x for x in extra if x != pid]:
             t0 = time.time()
-            rc, out = sh("./check %s --tier %s" % (cid, tier), cwd="/verif", timeout=4 * 3600)
+            rc, out = sh("./check %s --tier %s" % (cid, tier), cwd=SVERIF, timeout=4 * 3600)
             lines = [l for l in out.splitlines() if l.startswith("VIOLATION") or l.startswith("  ") or l.startswith("INCONCLUSIVE") or l.startswith(cid + " ")]
             det["%s/%s" % (cid, tier)] = {"exit": rc, "caught": rc == 1 and "VIOLATION property=" + cid in out, "wall_s": round(time.time() - t0, 1),
                                          "first_lines": [l[:400] for l in lines[:6]], "summary": [l for l in out.splitlines() if l.startswith(cid + " ")][-1:]}
@@ -128,13 +133,13 @@ def main():
             for l in lines[:3]:
                 print("   ", l[:300])
     finally:
-        sh("git -C /repo checkout -q -- .")
-        rc, out = sh("git -C /repo status --porcelain")
+        sh("git -C " + SREPO + " checkout -q -- .")
+        rc, out = sh("git -C " + SREPO + " status --porcelain")
         if out.strip():
             print("WARNING: /repo not clean after undo:", out)
     json.dump(res, open(resf, "w"), indent=1)
     # evidence files were rewritten by a run on a mutated tree: restore the committed ones
-    sh("git -C /verif checkout -q -- evidence 2>/dev/null; git -C /verif clean -fdq evidence/replays", cwd="/verif")
+    sh("git -C %s checkout -q -- evidence 2>/dev/null; git -C %s clean -fdq evidence/replays" % (SVERIF, SVERIF), cwd=SVERIF)
 
 
 if __name__ == "__main__":
